@@ -40,7 +40,7 @@ _SRV_ASSUME = [
     'Python semantics of the encoded subset (DESIGN 2.2.7); single-threaded execution; log() dropped',
 ]
 
-K1_C05 = ['normalize', 'timerange', 'Model.memoize', 'Model.equation', 'SdSimulation.__simulate']
+K1_C05 = ['normalize', 'timerange', 'Model.memoize', 'Model.previous_time', 'Model.equation', 'SdSimulation.__simulate']
 
 K1_C08 = ['SdElement.generate_function', 'SdElement.Element.equation.setter', 'SdElement.Stock.equation.setter',
           'SdElement.Flow.equation.setter', 'SdElement.Constant.equation.setter', 'SdElement.Stock.initial_value.setter',
@@ -191,7 +191,7 @@ PROPS = {
                      'not decided deductively: Element.plot (pandas comprehension) -- covered by the native harness only']),
     'C01': dict(
         mods=['contracts.c08_memo', 'contracts.c05_grid'],
-        k1=['Model.memoize', 'Model.equation', 'SdElement.generate_function', 'SdElement.Element.equation.setter', 'SdElement.Stock.equation.setter',
+        k1=['Model.memoize', 'Model.previous_time', 'Model.equation', 'SdElement.generate_function', 'SdElement.Element.equation.setter', 'SdElement.Stock.equation.setter',
             'SdElement.Flow.equation.setter', 'SdElement.Constant.equation.setter', 'SdElement.Stock.initial_value.setter', 'Model.reset_cache'],
         level='proof', engines=['contracts.c01_euler'],
         harness='verif/native/c01_harness.py', harness_budget=(20, 120),
